@@ -207,6 +207,8 @@ func runC14(e *Engine, r *Report) {
 	ruleReaderBoundFromFile(e, r)
 	ruleValidatorExact(e, r)
 	ruleReadHashBound(e, r)
+	ruleReadCountFromRead(e, r, 2, "internal/rsm", "internal/utils/dio")
+	ruleShortReadAccounted(e, r, 2)
 }
 
 // accepted idioms of the snapshot file code, each confirmed by reading the site.
